@@ -391,16 +391,39 @@ SPGEMV(c) ==
         ly == IF a.trans = "N" THEN m ELSE n
         soft == a.offsetA < 0 \/ a.offsetx < 0 \/ a.offsety < 0
                 \/ (n > 0 /\ m > 0 /\ a.offsetA + (n - 1) * Max(1, nr) + m > nr * nc)
+                \/ (b.A.sp = 0 /\ m > Max(1, nr))                  \* the leading dimension of a dense A is its number of rows
                 \/ NeedVec(a.offsetx, a.incx, lx) > Len0(b.x) \/ NeedVec(a.offsety, a.incy, ly) > Len0(b.y)
                 \/ BadScalar(a.alpha, c.tc) \/ BadScalar(a.beta, c.tc)
         \* "This sparse version of GEMV requires that m <= A.size[0] - (offsetA % A.size[0])" (and likewise for the columns)
         wrap == m > nr - oi \/ n > nc - oj
         alpha == DfltS(a.alpha, Z1)  beta == DfltS(a.beta, Z0)
-        M == Eager([i \in 1..m |-> Eager([j \in 1..n |-> Img(b.A, oi + i, oj + j)])])
+        \* a dense A is addressed like a BLAS array with leading dimension max(1, nr); a sparse one by the row / column of the cell offsetA
+        M == IF b.A.sp = 1 THEN Eager([i \in 1..m |-> Eager([j \in 1..n |-> Img(b.A, oi + i, oj + j)])])
+             ELSE GetGe(b.A, a.offsetA, Max(1, nr), m, n)
         x == GetVec(b.x, a.offsetx, a.incx, lx)  y == GetVec(b.y, a.offsety, a.incy, ly)
         out == WithD(b, "y", PutVec(b.y.d, a.offsety, a.incy, ly, VAxpby(alpha, MatVec(Op(M, m, n, a.trans), ly, lx, x), beta, y)))
         r == Res(hard, early, soft, out, Z0, b)
-    IN  IF ~hard /\ ~early /\ ~soft /\ wrap THEN [v |-> "unspecified", out |-> b, ret |-> Z0] ELSE r
+    IN  IF ~hard /\ ~early /\ ~soft /\ wrap /\ b.A.sp = 1 THEN [v |-> "unspecified", out |-> b, ret |-> Z0] ELSE r
+SPSYMV(c) ==
+    LET a == c.a  b == c.b  nr == b.A.nr  nc == b.A.nc
+        hard == BadFlag(a.uplo, {"L", "U"}) \/ a.incx = 0 \/ a.incy = 0 \/ (a.n < 0 /\ nr # nc)
+        n == IF a.n < 0 THEN nr ELSE a.n
+        early == n = 0
+        ld == Max(1, nr)
+        oi == IF nr > 0 THEN a.offsetA % nr ELSE 0
+        oj == IF nr > 0 THEN a.offsetA \div nr ELSE 0
+        soft == a.offsetA < 0 \/ a.offsetx < 0 \/ a.offsety < 0 \/ a.offsetA + (n - 1) * ld + n > nr * nc \/ (b.A.sp = 0 /\ n > ld)
+                \/ NeedVec(a.offsetx, a.incx, n) > Len0(b.x) \/ NeedVec(a.offsety, a.incy, n) > Len0(b.y)
+                \/ BadScalar(a.alpha, c.tc) \/ BadScalar(a.beta, c.tc)
+        wrap == n > nr - oi \/ n > nc - oj
+        alpha == DfltS(a.alpha, Z1)  beta == DfltS(a.beta, Z0)
+        G == IF b.A.sp = 1 THEN Eager([i \in 1..n |-> Eager([j \in 1..n |-> Img(b.A, oi + i, oj + j)])]) ELSE GetGe(b.A, a.offsetA, ld, n, n)
+        InTri(i, j) == IF a.uplo = "L" THEN i >= j ELSE i <= j
+        S == Eager([i \in 1..n |-> Eager([j \in 1..n |-> IF InTri(i, j) THEN G[i][j] ELSE G[j][i]])])
+        x == GetVec(b.x, a.offsetx, a.incx, n)  y == GetVec(b.y, a.offsety, a.incy, n)
+        out == WithD(b, "y", PutVec(b.y.d, a.offsety, a.incy, n, VAxpby(alpha, MatVec(S, n, n, x), beta, y)))
+        r == Res(hard, early, soft, out, Z0, b)
+    IN  IF ~hard /\ ~early /\ ~soft /\ wrap /\ b.A.sp = 1 THEN [v |-> "unspecified", out |-> b, ret |-> Z0] ELSE r
 FullM(b) == Eager([i \in 1..b.nr |-> Eager([j \in 1..b.nc |-> Img(b, i, j)])])
 SPGEMM(c) ==
     LET a == c.a  b == c.b
@@ -418,6 +441,8 @@ SPGEMM(c) ==
         new == MAxpby(alpha, MatMat(A, m, k, B, n), beta, FullM(b.C), m, n)
         Upd(i, j) == ~a.partial \/ b.Cmask.d[(j - 1) * m + i][1] = 1
     IN  Res(hard, early, soft, WithD(b, "C", PutSel(b.C.d, 0, Max(1, m), m, n, new, Upd)), Z0, b)
+\* A dense C is updated in its uplo triangle only.  A sparse C with partial = FALSE is replaced by a new matrix holding the updated triangle; whether
+\* stored entries of the OTHER triangle survive is not documented, so the binding compares the uplo triangle only in that case.
 SPSYRK(c) ==
     LET a == c.a  b == c.b
         okT == IF c.tc = "d" THEN {"N", "T", "C"} ELSE {"N", "T"}
@@ -433,6 +458,16 @@ SPSYRK(c) ==
         Upd(i, j) == (IF a.uplo = "L" THEN i >= j ELSE i <= j) /\ (~a.partial \/ b.Cmask.d[(j - 1) * n + i][1] = 1)
     IN  Res(hard, early, soft, WithD(b, "C", PutSel(b.C.d, 0, Max(1, n), n, n, new, Upd)), Z0, b)
 
+\* base.axpy(x, y, alpha, partial): y := alpha * x + y for operands of equal size; with a sparse y and partial = TRUE only the stored entries of y change
+SPAXPY(c) ==
+    LET a == c.a  b == c.b
+        hard == b.x.nr # b.y.nr \/ b.x.nc # b.y.nc
+        soft == BadScalar(a.alpha, c.tc)
+        alpha == DfltS(a.alpha, Z1)
+        Upd(p) == ~a.partial \/ b.Cmask.d[p][1] = 1
+        new == Eager([p \in 1..Len(b.y.d) |-> IF Upd(p) THEN CAdd(CMul(alpha, b.x.d[p]), b.y.d[p]) ELSE b.y.d[p]])
+    IN  Res(hard, FALSE, soft, WithD(b, "y", new), Z0, b)
+
 Run(c) ==
     CASE c.f \in {"swap", "copy", "axpy", "dot", "dotu"} -> L1two(c, c.f)
       [] c.f \in {"scal", "nrm2", "asum", "iamax"} -> L1one(c, c.f)
@@ -446,6 +481,8 @@ Run(c) ==
       [] c.f = "trmm" -> TRM(c, FALSE)
       [] c.f = "trsm" -> TRM(c, TRUE)
       [] c.f = "sp_gemv" -> SPGEMV(c)
+      [] c.f = "sp_symv" -> SPSYMV(c)
+      [] c.f = "sp_axpy" -> SPAXPY(c)
       [] c.f = "sp_gemm" -> SPGEMM(c)
       [] c.f = "sp_syrk" -> SPSYRK(c)
 =============================================================================
